@@ -39,8 +39,8 @@ func RequestContextMiddleware(cfg config.LoggingConfig) func(http.Handler) http.
 
 // idHeaderWriter makes sure the final response carries the identifiers: they are set on the
 // header map before the chain runs, but httputil.ReverseProxy clears that map after it has
-// forwarded a 1xx interim response (103 Early Hints), so they are put back, when missing, at
-// the moment the final header is written.
+// forwarded a 1xx interim response (103 Early Hints), so they are put back, when they are not
+// the first value of their header, at the moment the final header is written.
 type idHeaderWriter struct {
 	http.ResponseWriter
 	names  [2]string
@@ -54,8 +54,17 @@ func (w *idHeaderWriter) ensure() {
 	}
 	w.done = true
 	for i, name := range w.names {
-		if w.values[i] != "" && w.Header().Get(name) == "" {
-			w.Header().Set(name, w.values[i])
+		if w.values[i] == "" {
+			continue
+		}
+		// The identifier is the first value of its header. A backend may send a
+		// header of the same name: without an interim response its value follows
+		// ours (ReverseProxy appends), and after the map was cleared ours is put
+		// back in front of it rather than left out.
+		h := w.Header()
+		key := http.CanonicalHeaderKey(name)
+		if vals := h[key]; len(vals) == 0 || vals[0] != w.values[i] {
+			h[key] = append([]string{w.values[i]}, vals...)
 		}
 	}
 }
